@@ -31,7 +31,7 @@ import (
 
 // Step is one API call. T>=1: a call on transaction slot T. T==0: an environment step.
 //
-//	transaction ops:  begin | beginro (read-only) | get:<k> | scan | set:<k> | setn:<k>:<len> | del:<k> |
+//	transaction ops:  begin | beginro (read-only) | get:<k> | scan | scank (key-only scan) | set:<k> | setn:<k>:<len> | del:<k> |
 //	                  commit | commitwith | commitbg | join | discard
 //	environment ops:  rf (rotate + flush all) | compact (L0->base move + ingest drain) |
 //	                  throttle-on | throttle-off | close | reopen
@@ -321,7 +321,9 @@ func (x *Exec) txnStep(ti int, op string) (err error) {
 	case "get":
 		x.doGet(ti, t, f[1])
 	case "scan":
-		x.doScan(ti, t)
+		x.doScan(ti, t, false)
+	case "scank":
+		x.doScan(ti, t, true)
 	case "set", "setn", "del":
 		k := f[1]
 		w := &wr{by: fmt.Sprintf("%d.%d", ti, t.nOps)}
@@ -538,8 +540,14 @@ type kvPair struct {
 	v []byte
 }
 
-func (x *Exec) doScan(ti int, t *txnState) {
+// doScan: forward scan of the namespace; keyOnly uses IteratorOptions{KeyOnly: true} and
+// obtains the values through Item.ValueCopy.
+func (x *Exec) doScan(ti int, t *txnState, keyOnly bool) {
 	x.Reads++
+	how, opName := "scan", "scan"
+	if keyOnly {
+		how, opName = "scank", "scank"
+	}
 	// model: every key of the universe, in order, live under (snapshot overlaid with pending)
 	var want []kvPair
 	for _, k := range x.universe {
@@ -550,12 +558,12 @@ func (x *Exec) doScan(ti int, t *txnState) {
 		if live(w) {
 			want = append(want, kvPair{k, w.val})
 			if !fromPending {
-				t.readKeys[k] = "scan"
+				t.readKeys[k] = how
 			}
 		}
 	}
 	ns := []byte(x.Env.NS)
-	it := t.t.NewIterator(NoKV.IteratorOptions{})
+	it := t.t.NewIterator(NoKV.IteratorOptions{KeyOnly: keyOnly})
 	var got []kvPair
 	n := 0
 	if len(ns) > 0 {
@@ -569,7 +577,15 @@ func (x *Exec) doScan(ti int, t *txnState) {
 		if strings.HasPrefix(string(e.Key), "!NoKV!") {
 			continue
 		}
-		got = append(got, kvPair{uk, append([]byte{}, e.Value...)})
+		val := e.Value
+		if keyOnly {
+			vc, err := it.Item().ValueCopy(nil)
+			if err != nil {
+				x.addf("error", "scan-valuecopy-error", "transaction %d key-only scan: ValueCopy(%s) returned %v", ti, uk, err)
+			}
+			val = vc
+		}
+		got = append(got, kvPair{uk, append([]byte{}, val...)})
 		if n++; n > 64 {
 			break
 		}
@@ -579,9 +595,9 @@ func (x *Exec) doScan(ti int, t *txnState) {
 	for _, p := range got {
 		fmt.Fprintf(&sb, "%s=%s,", p.k, x.describe(p.v, true))
 	}
-	x.Outcome = append(x.Outcome, fmt.Sprintf("%d.scan=[%s]", ti, sb.String()))
+	x.Outcome = append(x.Outcome, fmt.Sprintf("%d.%s=[%s]", ti, opName, sb.String()))
 	if reason, detail := x.diffScan(t, want, got); reason != "" {
-		x.addf("read", "scan-"+reason+x.ctx(t), "transaction %d (read ts %d) forward scan returned [%s]; %s", ti, t.readTs, sb.String(), detail)
+		x.addf("read", how+"-"+reason+x.ctx(t), "transaction %d (read ts %d) forward %s returned [%s]; %s", ti, t.readTs, opName, sb.String(), detail)
 	}
 }
 
@@ -668,10 +684,7 @@ func (x *Exec) finishCommit(ti int, t *txnState, err error) {
 	case err == nil:
 		x.Commits++
 		if must {
-			how := "get"
-			if strings.HasPrefix(overwritten[0], "scan") {
-				how = "scan"
-			}
+			how := overwritten[0][:strings.IndexByte(overwritten[0], ':')] // get | scan | scank
 			untr := ""
 			if allPruned {
 				// mechanism: the commit it conflicts with was pruned from the conflict history
